@@ -4,6 +4,7 @@ constructors / assignments, the scalar / polynomial mixed quotient and remainder
 -/
 import GivaroModel.Lemmas.PolyEuclid
 import GivaroModel.Model.PolyMore
+import GivaroModel.Model.PolyPadicDirect
 
 open Polynomial
 set_option linter.unusedSectionVars false
@@ -336,6 +337,34 @@ theorem toPoly_divmodin (thr : Nat) (hthr : 1 ≤ thr) (R B : List K) (hb : toPo
   refine ⟨rfl, ?_⟩
   have := EuclideanDomain.div_add_mod (toPoly R) (toPoly B)
   linear_combination (-1 : K[X]) * this
+
+/-! ### `Poly1PadicDom::radixdirect` / `evaldirect` -/
+
+theorem evalDirect_eq (p : Nat) (P : List Nat) : Givaro.Model.Padic.evalDirect p P = Givaro.Model.Padic.eval p P := by
+  unfold Givaro.Model.Padic.evalDirect
+  induction P with
+  | nil => rfl
+  | cons a P ih => simp only [List.foldr_cons, Givaro.Model.Padic.eval]; rw [ih]; ring
+
+theorem radixDirect_spec (p : Nat) (hp : 1 ≤ p) : ∀ (n E : Nat),
+    (Givaro.Model.Padic.radixDirect p n E).length = n ∧ (∀ d ∈ Givaro.Model.Padic.radixDirect p n E, d < p) ∧
+    Givaro.Model.Padic.eval p (Givaro.Model.Padic.radixDirect p n E) = E % p ^ n := by
+  intro n
+  induction n with
+  | zero => intro E; simp [Givaro.Model.Padic.radixDirect, Givaro.Model.Padic.eval, Nat.mod_one]
+  | succ n ih =>
+    intro E
+    obtain ⟨h1, h2, h3⟩ := ih (E / p)
+    have hm : E - E / p * p = E % p := by
+      have := Nat.div_add_mod E p
+      rw [Nat.mul_comm] at this
+      omega
+    simp only [Givaro.Model.Padic.radixDirect, Givaro.Model.Padic.eval, List.length_cons, List.mem_cons, hm]
+    refine ⟨by omega, ?_, ?_⟩
+    · rintro d (rfl | hd)
+      · exact Nat.mod_lt _ (by omega)
+      · exact h2 d hd
+    · rw [h3, Nat.pow_succ', Nat.mod_mul]
 
 /-! ### shapes of `random` -/
 
